@@ -32,7 +32,7 @@ def one(d):
                 out += p2.stdout
                 prop = prop + " via " + other
                 break
-    if rcv == "0" and meta.get("out_of_reach"):
+    if rcv in ("0", "2") and meta.get("out_of_reach"):
         rcv = "9"
     if rcv == "0" and meta.get("neutralised_by"):
         rcv = "8"
@@ -40,7 +40,7 @@ def one(d):
 rows = []
 with ThreadPoolExecutor(jobs) as ex:
     for d, prop, rc, cls, out in ex.map(one, dirs):
-        verdict = {"1": "DETECTED", "0": "missed", "2": "infra", "9": "missed (out of reach: stubbed component)", "8": "no longer a breaking change (neutralised by a later fix in /repo; detected before it)"}.get(rc, "?")
+        verdict = {"1": "DETECTED", "0": "missed", "2": "infra", "9": "missed (out of reach, reason in meta.json)", "8": "no longer a breaking change (neutralised by a later fix in /repo; detected before it)"}.get(rc, "?")
         print(d, prop, verdict, cls[:2], flush=True)
         rows.append((d, prop, verdict, "; ".join(cls[:3])))
         open(V + "/seeded/%s/last_check.log" % d, "w").write(out[-6000:])
